@@ -556,6 +556,11 @@ def run(ctx):
     else:
         for i, cp in enumerate(sorted(glob.glob(os.path.join(vlib.VERIF, "corpus", "C12", "*.tsv")))):
             runs.append(("corpus%d" % i, "-replay %s" % cp, None))
+        # end-to-end scenarios that once failed (kept as (seed, scenarios) pairs: they are pure functions of the seed)
+        e2c = os.path.join(vlib.VERIF, "corpus", "C12", "e2e.json")
+        if os.path.exists(e2c):
+            for i, e in enumerate(json.load(open(e2c))):
+                runs.append(("corpus_e2e%d" % i, "-seed %d -worlds 0 -n 0 -e2e %d" % (e["seed"], e["n"]), (e["seed"], e["n"])))
         runs.append(("fresh", "-seed %d -worlds %d -n %d -e2e %d" % (ctx.seed, worlds, n, ne2e), (ctx.seed, ne2e)))
 
     all_mism, all_fail, total, evals, hist_all, samples, distinct, nan_cases = [], [], 0, 0, {}, [], set(), 0
